@@ -517,6 +517,17 @@ def _probes():
     add("SparseQuaternionMatrix@dense", lambda A, B: A @ B, lambda c: [S(c["A"]), Q(c["B"])])
     add("SparseQuaternionMatrix.left_multiply", lambda B, A: B.left_multiply(A), lambda c: [S(c["B"]), Q(c["A"])])
     add("SparseQuaternionMatrix*scalar", lambda A: A * 2.5, lambda c: [S(c["A"])])
+
+    def shared_pattern_csr(A):
+        """The four planes as CSR matrices over ONE shared pattern (the union of the non-zero positions), i.e. with
+        explicitly stored zeros where a component vanishes - the caller's own scipy objects."""
+        from scipy import sparse as sp_
+        mask = np.any(A != 0.0, axis=-1)
+        rows, cols = np.nonzero(mask)
+        return [sp_.csr_matrix((np.ascontiguousarray(A[rows, cols, c_]), (rows, cols)), shape=A.shape[:2]) for c_ in range(4)]
+    add("SparseQuaternionMatrix(caller's CSR planes, shared pattern with stored zeros) @ dense",
+        lambda a0, a1, a2, a3, B: u.SparseQuaternionMatrix(a0, a1, a2, a3, a0.shape) @ B,
+        lambda c: shared_pattern_csr(c["A"]) + [Q(c["B"])])
     return P
 
 
@@ -716,7 +727,7 @@ def _deviation(r1, r2):
 def _hash_args(args):
     hs = []
     for a in args:
-        if isinstance(a, (np.ndarray, L.utils.SparseQuaternionMatrix)):
+        if isinstance(a, (np.ndarray, L.utils.SparseQuaternionMatrix)) or (hasattr(a, "getformat") and hasattr(a, "tocoo")):
             hs.append(ahash(a))
         else:
             hs.append(None)
